@@ -592,7 +592,7 @@ func init() {
 			}
 			// C05: identity-provider nonce behaviours on a fresh login each
 			acceptedIDToken := ""
-			for _, mode := range []string{"echo", "other", "empty", "absent", "raw", "replay", "replay-token"} {
+			for _, mode := range []string{"echo", "other", "empty", "absent", "absent-userinfo", "raw", "replay", "replay-token"} {
 				b := newBrowser()
 				sl := e.startOne(b, "N", "/n")
 				if sl == nil {
@@ -612,6 +612,13 @@ func init() {
 					e.idp.forceIDToken = acceptedIDToken
 					if acceptedIDToken == "" {
 						e.idp.forceIDToken = e.idp.lastIDToken
+					}
+				case "absent-userinfo":
+					// the ID token carries NO nonce; the profile (userinfo) endpoint — not signed, not bound to this login by
+					// anything — offers the very value this login expects: the nonce may only ever come from the ID token
+					e.idp.nonceMode = "absent"
+					if q, err := url.Parse(sl.location); err == nil {
+						e.idp.profile = map[string]interface{}{"nonce": q.Query().Get("nonce")}
 					}
 				case "raw":
 					e.idp.nonceMode = "raw"
@@ -633,6 +640,9 @@ func init() {
 				v, real := e.serveCase(reqSpec{Target: target, Cookie: b.cookieHeader()}, nil, "nonce:"+mode)
 				e.idp.mu.Lock()
 				e.idp.nonceMode, e.idp.forceIDToken = "", ""
+				if mode == "absent-userinfo" {
+					e.idp.profile = nil
+				}
 				e.idp.mu.Unlock()
 				if v == nil {
 					continue
